@@ -75,12 +75,12 @@ func (w *World) generate(p string) *checkResult {
 		fname := pk + "." + short
 		if c.Trusted {
 			res.trustedFns = append(res.trustedFns, fname)
-			if w.funcs[n] == nil {
+			if w.funcOf(n) == nil {
 				res.failed = append(res.failed, &Obligation{Name: fname + "#bind", Kind: "bind", Func: fname, Props: []string{p}, Status: "unbound", Clause: "trusted contract refers to a function that does not exist", Pos: fmt.Sprintf("%s:%d", c.File, c.Line)})
 			}
 			continue
 		}
-		fn := w.funcs[n]
+		fn := w.funcOf(n)
 		if fn == nil {
 			o := &Obligation{Name: fname + "#bind", Kind: "bind", Func: fname, Props: []string{p}, Status: "unbound", Clause: "contract refers to a function that does not exist (renamed or removed)", Pos: fmt.Sprintf("%s:%d", c.File, c.Line)}
 			res.obls = append(res.obls, o)
